@@ -82,6 +82,16 @@ func VerifC04Tampered() {
 	route := 0
 	if readdressed || field == 9 {
 		route = vstub.NdChoice("route", 3)
+	} else if field == 8 && vstub.NdChoice("twin-block", 2) == 1 {
+		// a TWIN block: the block store holds, under another well-formed address, a
+		// block that decodes to the genuine entry (a non-canonical encoding of it has
+		// another digest); a valid head links that address.  The replicator has
+		// already verified an honestly fetched entry before.
+		stored := victim.Copy()
+		stored.SetHash(cid.Cid{})
+		blocks.Put(t.GetHash(), stored)
+		route = 1 + vstub.NdChoice("twin-link", 2)
+		vstub.Cover("twin-block-through-link")
 	}
 	asAncestor := route != 0
 	if asAncestor {
